@@ -90,6 +90,28 @@ pub fn check_read(encoding: &str, doc: &Doc, cuts: &[usize]) -> Result<Obs, (Str
                     cur.clear();
                 }
             }
+            Rec::El(e) => {
+                // names and attribute values (raw) vs whole-buffer decoding of the tag's bytes
+                let tag = &doc.bytes[e.start.min(doc.bytes.len())..e.end.min(doc.bytes.len())];
+                if let Some(p) = crate::refattr::parse_tag(tag) {
+                    if p.attrs.len() == e.attrs.len() {
+                        for (a, ra) in e.attrs.iter().zip(p.attrs.iter()) {
+                            let n = dec(enc, &tag[ra.name.0..ra.name.1]);
+                            let v = dec(enc, &tag[ra.value.0..ra.value.1]);
+                            if a.name_pc != n || a.value != v {
+                                return Err(("attribute-decoded-wrongly".into(), ctx(format!("attribute read as {:?}={:?}, the bytes decode to {:?}={:?} in tag {}", a.name_pc, a.value, n, v, show(tag)))));
+                            }
+                            if tag[ra.value.0..ra.value.1].first().map_or(false, |b| *b >= 0xef) {
+                                obs.nontrivial = true;
+                            }
+                        }
+                    }
+                    let n = dec(enc, &tag[p.name.0..p.name.1]);
+                    if e.name_pc != n {
+                        return Err(("name-decoded-wrongly".into(), ctx(format!("tag name read as {:?}, the bytes decode to {:?}", e.name_pc, n))));
+                    }
+                }
+            }
             Rec::Comment { text, .. } => {
                 let Some(t) = comments.next() else { return Err(("unexpected-comment".into(), ctx("more comments than expected".into()))) };
                 if let Kind::Comment { text: (a, b) } = t.kind {
@@ -361,8 +383,32 @@ impl Prop for C13 {
                                     }
                                 }
                                 Kind::Comment { text } => {
-                                    nd.bytes.extend(&doc.bytes[t.start..t.end]);
-                                    kind = Kind::Comment { text: (s + (text.0 - t.start), s + (text.1 - t.start)) };
+                                    // byte-order-mark look-alikes at the start of the comment text must be read as text
+                                    let pre: &[u8] = if ctx.rng.chance(1, 3) { *ctx.rng.pick(&[&b"\xef\xbb\xbf"[..], b"\xff\xfe", b"\xfe\xff"]) } else { b"" };
+                                    nd.bytes.extend(&doc.bytes[t.start..text.0]);
+                                    nd.bytes.extend(pre);
+                                    nd.bytes.extend(&doc.bytes[text.0..t.end]);
+                                    kind = Kind::Comment { text: (s + (text.0 - t.start), s + (text.1 - t.start) + pre.len()) };
+                                }
+                                Kind::Start { .. } => {
+                                    let tag = &doc.bytes[t.start..t.end];
+                                    let mut at: Option<usize> = None;
+                                    // (annotation-xml's encoding attribute decides the content model: left alone)
+                                    if ctx.rng.chance(1, 3) && !tag.to_ascii_lowercase().starts_with(b"<annotation-xml") {
+                                        if let Some(p) = crate::refattr::parse_tag(tag) {
+                                            // only quoted values: an unquoted value may not start with arbitrary bytes safely
+                                            at = p.attrs.iter().filter(|a| a.has_value && a.value.0 > 0 && matches!(tag[a.value.0 - 1], b'"' | b'\'')).map(|a| a.value.0).next();
+                                        }
+                                    }
+                                    match at {
+                                        Some(off) => {
+                                            let pre: &[u8] = *ctx.rng.pick(&[&b"\xef\xbb\xbf"[..], b"\xff\xfe", b"\xfe\xff"]);
+                                            nd.bytes.extend(&tag[..off]);
+                                            nd.bytes.extend(pre);
+                                            nd.bytes.extend(&tag[off..]);
+                                        }
+                                        None => nd.bytes.extend(tag),
+                                    }
                                 }
                                 _ => nd.bytes.extend(&doc.bytes[t.start..t.end]),
                             }
